@@ -148,7 +148,17 @@ Definition imap := bytes -> option (list (Z * Z)).
 
 (* ------------------------------------------------------------ decode_address *)
 Inductive addr := ANone | AInet (ip : bytes) (port : Z) | APath (p : bytes).
-Record row := { r_fd : Z; r_family : Z; r_type : Z; r_laddr : addr; r_raddr : addr;
+(* family and type are Python objects whose CLASS matters: a member of socket.AddressFamily / socket.SocketKind
+   (an IntEnum: prints as SOCK_SEQPACKET, compares equal to 5) or a plain int *)
+Inductive tagged := TEnum (n : Z) | TInt (n : Z).
+Definition tag_val (t : tagged) : Z := match t with TEnum n | TInt n => n end.
+(* _common.socktype_to_enum / sockfam_to_enum: the member with that value, else the number itself *)
+Definition to_enum (members : list Z) (n : Z) : tagged :=
+  if existsb (Z.eqb n) members then TEnum n else TInt n.
+(* the family / type objects stored in NetConnections.tmap are yielded as they are *)
+Definition tmap_obj (n : Z) : tagged := if gen_tmap_enums then TEnum n else TInt n.
+
+Record row := { r_fd : Z; r_family : tagged; r_type : tagged; r_laddr : addr; r_raddr : addr;
                 r_status : bytes; r_pid : option Z }.
 
 (* the host's IPv6 support: does socket.inet_ntop(AF_INET6, packed) work (False: it raises ValueError,
@@ -251,7 +261,7 @@ Definition inet_line (le : bool) (o : ipv6_oracle) (family type : Z) (lk : imap)
         match ra with
         | DUnsupported => Val None
         | DAddr ra =>
-          Val (Some {| r_fd := snd own; r_family := family; r_type := type; r_laddr := la; r_raddr := ra;
+          Val (Some {| r_fd := snd own; r_family := tmap_obj family; r_type := tmap_obj type; r_laddr := la; r_raddr := ra;
                        r_status := st; r_pid := fst own |})
         end
       end
@@ -320,7 +330,8 @@ Definition unix_line (v : variant) (family : Z) (lk : imap) (filt : option Z) (l
       let path := if v_exact v then rstrip_nl (after_space (rest_after 6 line))
                   else if (8 <=? length tokens)%nat then rstrip_nl (rest_after 7 line) else [] in
       do t <- py_int ty;                               (* socktype_to_enum(int(type_)) *)
-      Val (map (fun pf => {| r_fd := snd pf; r_family := family; r_type := t; r_laddr := APath path;
+      Val (map (fun pf => {| r_fd := snd pf; r_family := tmap_obj family; r_type := to_enum gen_socket_kinds t;
+                             r_laddr := APath path;
                              r_raddr := APath []; r_status := CONN_NONE; r_pid := fst pf |}) sel)
     end
   | _ => if contains 32 line then Exc RuntimeError else Val []
@@ -411,9 +422,11 @@ Definition retrieve_log (v : variant) (le : bool) (o : ipv6_oracle) (files : byt
 (* ------------------------------------------------------------ ret = set(); ret.add(conn); list(ret) *)
 Definition addr_eq_dec : forall a b : addr, {a = b} + {a <> b}.
 Proof. decide equality; try apply Z.eq_dec; apply (list_eq_dec Z.eq_dec). Defined.
+Definition tagged_eq_dec : forall a b : tagged, {a = b} + {a <> b}.
+Proof. decide equality; apply Z.eq_dec. Defined.
 Definition row_eq_dec : forall a b : row, {a = b} + {a <> b}.
 Proof.
-  decide equality; try apply Z.eq_dec; try apply addr_eq_dec; try apply (list_eq_dec Z.eq_dec).
+  decide equality; try apply tagged_eq_dec; try apply Z.eq_dec; try apply addr_eq_dec; try apply (list_eq_dec Z.eq_dec).
   decide equality; apply Z.eq_dec.
 Defined.
 Definition as_set (l : list row) : list row := nodup row_eq_dec l.
